@@ -395,4 +395,163 @@ theorem sinv_run {n : Nat} (h1 : 1 ≤ n) (h2 : n < 4294967296) (es : List BEv) 
     · rename_i s1 he
       exact ih (sinv_step h1 h2 hi he) h
 
+/-! ### the `true` values: one per complete group -/
+
+structure TInv (s : SSt) : Prop where
+  tcnt : (s.retF.map (·.2)).count true + s.pendT.length = s.groups
+  pT : ∀ x, x ∈ s.pendT ↔ (s.phase x = 1 ∧ s.hgrant x = true ∧ s.hlast x = true)
+  pnd : s.pendT.Nodup
+
+theorem tinv_init (n : Nat) : TInv (SSt.init n) := by
+  constructor <;> simp [SSt.init]
+
+theorem tinv_wait {n : Nat} {s s' : SSt} {a : Aid} (hi : SInv n s) (ht : TInv s)
+    (h : sstep s (.wait a) = .ok s') : TInv s' := by
+  simp only [sstep] at h
+  split at h
+  · simp at h
+  · rename_i hph
+    have hph : s.phase a = 1 := by simpa using hph
+    simp only [Except.ok.injEq] at h
+    obtain ⟨htc, hpT, hpn⟩ := ht
+    cases hg : s.hgrant a with
+    | true =>
+      have hw : s.b.waitFor a true = (s.b, true) := by simp [Bar.waitFor]
+      rw [hg, hw] at h
+      simp only [if_true] at h
+      subst h
+      have hmem : a ∈ s.pendT ↔ s.hlast a = true := by
+        rw [hpT a]; simp [hph, hg]
+      refine ⟨?_, ?_, hpn.erase a⟩
+      · show ((s.retF ++ [(a, s.hlast a)]).map (·.2)).count true + (s.pendT.erase a).length = s.groups
+        simp only [List.map_append, List.map_cons, List.map_nil, List.count_append, List.count_singleton]
+        cases hl : s.hlast a with
+        | true =>
+          have hm : a ∈ s.pendT := hmem.mpr hl
+          have := List.length_pos_of_mem hm
+          rw [List.length_erase_of_mem hm]
+          simp; omega
+        | false =>
+          have hm : a ∉ s.pendT := fun h => by rw [hmem.mp h] at hl; cases hl
+          rw [List.erase_of_not_mem hm]
+          simpa using htc
+      · intro x
+        show x ∈ s.pendT.erase a ↔ (upd s.phase a 0 x = 1 ∧ s.hgrant x = true ∧ s.hlast x = true)
+        by_cases e : x = a
+        · subst e
+          rw [hpn.mem_erase_iff]
+          simp [upd]
+        · rw [List.mem_erase_of_ne e, hpT x]
+          simp [upd, e]
+    | false =>
+      have hw : s.b.waitFor a false = ({ s.b with queue := markB a s.b.queue }, false) := by simp [Bar.waitFor]
+      rw [hg, hw] at h
+      simp only [Bool.false_eq_true, if_false] at h
+      subst h
+      refine ⟨htc, ?_, hpn⟩
+      intro x
+      show x ∈ s.pendT ↔ (upd s.phase a 2 x = 1 ∧ s.hgrant x = true ∧ s.hlast x = true)
+      by_cases e : x = a
+      · subst e
+        rw [hpT x]
+        simp [upd, hg]
+      · rw [hpT x]
+        simp [upd, e]
+
+theorem tinv_async {n : Nat} (h1 : 1 ≤ n) (h2 : n < 4294967296) {s s' : SSt} {a : Aid} (hi : SInv n s)
+    (ht : TInv s) (h : sstep s (.async a) = .ok s') : TInv s' := by
+  simp only [sstep] at h
+  split at h
+  · simp at h
+  · rename_i hph
+    have hph : s.phase a = 0 := by simpa using hph
+    simp only [Except.ok.injEq] at h
+    obtain ⟨htc, hpT, hpn⟩ := ht
+    have hphq := hi.phq
+    have hna : a ∉ s.pendT := fun hm => by
+      have := ((hpT a).mp hm).1
+      rw [hph] at this; cases this
+    by_cases hlt : s.b.queue.length < s.b.threshold
+    · have hacq : s.b.acquireAsync a = ({ s.b with queue := s.b.queue ++ [{ issuer := a }] }, false, []) := by
+        simp [Bar.acquireAsync, hlt]
+      rw [hacq] at h
+      subst h
+      refine ⟨?_, ?_, hpn⟩
+      · show ((s.retF ++ (woken []).map (fun x => (x, false))).map (·.2)).count true + s.pendT.length = s.groups
+        simpa [woken] using htc
+      · intro x
+        show x ∈ s.pendT ↔
+          ((if x = a then 1 else if (woken []).contains x = true then 0 else s.phase x) = 1 ∧
+            upd (grantUnwaitedB s.hgrant []) a false x = true ∧ upd s.hlast a (Bar.wasLast
+              { s.b with queue := s.b.queue ++ [{ issuer := a }] }) x = true)
+        by_cases e : x = a
+        · subst e
+          simp [upd, hna]
+        · rw [hpT x]
+          simp [upd, e, woken, grantUnwaitedB]
+    · have hacq : s.b.acquireAsync a = ({ s.b with queue := [] }, true, s.b.queue) := by
+        simp [Bar.acquireAsync, hlt]
+      rw [hacq] at h
+      subst h
+      have hP1 : ∀ x, s.b.queue.any (fun q => decide (q.issuer = x) && q.waited) = true → s.phase x = 2 := by
+        intro x hx
+        obtain ⟨q, hq, rfl, hw⟩ := any_mem hx
+        exact (hphq q hq).1 hw
+      have hP0 : ∀ x, s.b.queue.any (fun q => decide (q.issuer = x) && !q.waited) = true →
+          s.phase x = 1 ∧ s.hgrant x = false ∧ s.hlast x = false := by
+        intro x hx
+        obtain ⟨q, hq, rfl, hw⟩ := any_mem hx
+        exact (hphq q hq).2 (by simpa using hw)
+      refine ⟨?_, ?_, ?_⟩
+      · show ((s.retF ++ (woken s.b.queue).map (fun x => (x, false))).map (·.2)).count true +
+            (s.pendT ++ [a]).length = s.groups + 1
+        have : ((woken s.b.queue).map (fun x => (x, false))).map (·.2) = List.replicate (woken s.b.queue).length false := by
+          simp [List.map_map, Function.comp_def, List.map_const']
+        simp only [List.map_append, List.count_append, this, List.count_replicate, List.length_append,
+          List.length_cons, List.length_nil]
+        simp; omega
+      · intro x
+        show x ∈ s.pendT ++ [a] ↔
+          ((if x = a then 1 else if (woken s.b.queue).contains x = true then 0 else s.phase x) = 1 ∧
+            upd (grantUnwaitedB s.hgrant s.b.queue) a true x = true ∧
+            upd s.hlast a (Bar.wasLast { s.b with queue := [] }) x = true)
+        by_cases e : x = a
+        · subst e
+          simp [upd, Bar.wasLast]
+        · simp only [List.mem_append, List.mem_singleton, e, or_false, if_false, upd, woken_contains_eq,
+            grantUnwaitedB_apply]
+          rw [hpT x]
+          cases hA1 : s.b.queue.any (fun q => decide (q.issuer = x) && q.waited) with
+          | true =>
+            have := hP1 x hA1
+            simp [this]
+          | false =>
+            cases hA0 : s.b.queue.any (fun q => decide (q.issuer = x) && !q.waited) with
+            | true =>
+              obtain ⟨p1, p2, p3⟩ := hP0 x hA0
+              simp [p1, p2, p3]
+            | false => simp
+      · show (s.pendT ++ [a]).Nodup
+        rw [List.nodup_append]
+        refine ⟨hpn, by simp, ?_⟩
+        intro x hx y hy
+        simp only [List.mem_singleton] at hy; subst hy
+        intro e; exact hna (e ▸ hx)
+
+theorem tinv_run {n : Nat} (h1 : 1 ≤ n) (h2 : n < 4294967296) (es : List BEv) : ∀ {s s' : SSt}, SInv n s → TInv s →
+    srun s es = .ok s' → TInv s' := by
+  induction es with
+  | nil => intro s s' _ ht h; simp [srun] at h; subst h; exact ht
+  | cons e es ih =>
+    intro s s' hi ht h
+    simp only [srun] at h
+    split at h
+    · simp at h
+    · rename_i s1 he
+      have ht1 : TInv s1 := by
+        cases e with
+        | async a => exact tinv_async h1 h2 hi ht he
+        | wait a => exact tinv_wait hi ht he
+      exact ih (sinv_step h1 h2 hi he) ht1 h
+
 end SgVerif.C07
